@@ -307,6 +307,10 @@ def curated() -> Dict[str, World]:
         {"default.x.do": [S(deps=["%.src"])], "top.do": [S(deps=["p.x", "q.x"])],
          "p.x.do": [S(deps=["%.src"], tag="specific", out="file")]},
         ["top", "p.x", "q.x"], ["top", "p.x"], notes="p.x.do starts absent; see dofiles_absent")
+    W["takeover"] = World(   # p.x has its own rule, q.x is built by the default rule; removing p.x.do lets the default rule take p.x over
+        "takeover", {"s": V3, "u": ["7", "8"]},
+        {"default.x.do": [S(deps=["s"])], "top.do": [S(deps=["p.x", "q.x"])], "p.x.do": [S(deps=["s", "u"], tag="specific", out="file")]},
+        ["top", "p.x", "q.x"], ["top", "p.x"])
     W["fan3"] = World(   # three dependents of one generated node (the third parent sees it "already checked")
         "fan3", {"s": ["0", "1"]},
         {"top.do": [S(deps=["a", "b", "c"])], "a.do": [S(deps=["leaf"])], "b.do": [S(deps=["leaf"], out="file")],
